@@ -354,7 +354,12 @@ pub fn check_lowrank_exact(c: &LrCase) -> Outcome {
     let w = linalg::matmul(&js, d, d, &linalg::transpose(&jac, d, d), d);
     let ev = linalg::sym_eigvals(&w, d);
     let (lo, hi) = (ev[0], ev[d - 1]);
-    let cut = if c.cutoff_one { 1.0 } else { 2.0 };
+    // A target with independent coordinates is whitened exactly by the diagonal part alone (sigma_i^2 =
+    // sqrt(var x_i / var g_i) is exact on a Gaussian for any sample), the rescaled covariance is the identity and no
+    // eigenvalue passes any cut-off: the whitening is exact whatever the cut-off.
+    let diagonal_target = (0..d).all(|i| (0..d).all(|j| i == j || c.prec[i * d + j] == 0.0));
+    o.label_if(diagonal_target, "independent-coordinates");
+    let cut = if c.cutoff_one || diagonal_target { 1.0 } else { 2.0 };
     let slack = 2e-3 + 20.0 * reg_err;
     if !(lo >= (1.0 / cut) * (1.0 - slack) && hi <= cut * (1.0 + slack)) {
         o.set_fail(
@@ -385,7 +390,7 @@ impl Part for LowRankExact {
     fn rule(&self) -> String {
         "correlated Gaussians (random SPD precision, condition up to 1e4, d in 2..12), n in d+2..3d+8 draws spanning R^d drawn around the \
          mean with the target's own scales, gradients exact; with eigval_cutoff = 1: spectrum of the whitened covariance in [1,1](1+-2e-3) \
-         and whitened gradient = -whitened position (2e-3 relative); with the default cut-off 2: spectrum in [1/2,2]; non-trivial = every \
+         and whitened gradient = -whitened position (2e-3 relative); with the default cut-off 2: spectrum in [1/2,2], and exactly 1 for the quarter of the targets that has independent coordinates; non-trivial = every \
          judged case; distinct by (d, n, cut-off)"
             .into()
     }
@@ -404,8 +409,18 @@ impl Part for LowRankExact {
                     prop_oneof![Just(1e-5f64), Just(1e-9f64)],
                 )
             })
-            .prop_map(|(mean, prec, zs, cutoff_one, probe, gamma)| {
+            .prop_map(|(mean, mut prec, zs, cutoff_one, probe, gamma)| {
                 let d = mean.len();
+                // a quarter of the targets has independent coordinates (diagonal precision)
+                if (gamma.to_bits() ^ zs[0][0].to_bits()) % 4 == 0 {
+                    for i in 0..d {
+                        for j in 0..d {
+                            if i != j {
+                                prec[i * d + j] = 0.0;
+                            }
+                        }
+                    }
+                }
                 // place the draws with the target's own scales: x = mean + diag(1/sqrt(P_ii)) z
                 let xs = zs.iter().map(|z| (0..d).map(|i| mean[i] + z[i] / prec[i * d + i].sqrt()).collect()).collect();
                 LrCase { mean, prec, xs, cutoff_one, probe, gamma }
@@ -416,7 +431,7 @@ impl Part for LowRankExact {
         check_lowrank_exact(c)
     }
     fn floors(&self) -> Vec<(&'static str, f64)> {
-        vec![("cutoff=1", 0.3), ("cutoff=2", 0.3)]
+        vec![("cutoff=1", 0.3), ("cutoff=2", 0.3), ("independent-coordinates", 0.08)]
     }
 }
 
